@@ -10,3 +10,8 @@ open ZCV.Props.C01
 #print axioms C01_end_to_end
 #print axioms C01_end_to_end_stock
 #print axioms ZCV.Elab.elab_types_keys_lower
+#print axioms C01_load_accept_iff
+#print axioms C01_load_accept_iff_norm
+#print axioms C01_load_accept_iff_no_overrides
+#print axioms C01_text_accept_iff_conforms_from_general
+#print axioms C01_end_to_end_general
